@@ -9,10 +9,18 @@ class table, see their results and may catch their exceptions), every nesting bo
 block of user code (`Block`: any nesting of `with journal:` blocks to any depth, `try` blocks,
 operations that raise), and every start world (any class table that consists of wrapper chains, i.e.
 already inside any stack of journals).
+
+Round 5: /repo's wrappers look at `journal._active` (commit 1a1144b).  `runBlockG` / `runFlatG` / `dispatchG` are that
+code; `C20_table_wrappers_active` proves the invariant "every wrapper installed in the class table belongs to an active
+journal" along every properly nested history and that the checked code is state-for-state the unchecked one, and the
+`*_guarded` theorems restate restore / transparent / entries / kernel for the checked code.  What the checked code does
+outside "properly nested": `C20_inactive_journal_silent`, `C20_stale_wrapper_forwards`,
+`C20_exit_restores_own_snapshot_guarded`, `C20_improper_nesting_general_guarded`.
 -/
 import IrVerif.Lemmas.Journal
 import IrVerif.Lemmas.JournalKernel
 import IrVerif.Lemmas.JournalFlat
+import IrVerif.Lemmas.JournalGuardFrame
 namespace IrVerif.Journal
 
 variable {σ : Type}
@@ -766,5 +774,366 @@ example : (∀ j ∈ (capture 21 5 (enterRaw 0 (initialWorld ()))).impl.layers,
     (∀ j ∈ (capture 21 5 (enterRaw 0 (initialWorld ()))).impl.layers,
       ((enterRaw 0 (initialWorld ())).journals j).active = true) := by
   simp [capture, enterRaw, exit, initialWorld, pristine, upd, Impl.layers]
+
+/-! ## round 5: the code as it is now (every wrapper checks `journal._active`, repo commit 1a1144b) -/
+
+/-! ### the invariant: every wrapper reachable through the class table belongs to an active journal -/
+
+/-- **C20_table_wrappers_active**: run the code AS IT IS NOW (`runFlatG`: every wrapper, also those reached by
+    nested calls, first looks at `journal._active`) along any properly nested flat history `u` - raw enters, exits
+    (normal or with an exception propagating), user code calling instrumented operations - from a world whose
+    installed wrappers all belong to active journals (e.g. the start of the program, or inside any stack of open
+    journals), the word's journals not being active.  Then at EVERY moment of the history (after every prefix
+    `u1`): every wrapper installed in any slot of the class table - every layer of it - belongs to a journal that
+    is active; and the state is exactly the state of the unchecked semantics `runFlat` (the one the run theorems
+    were stated for).  This is the link that was "by comparison" until round 4. -/
+theorem C20_table_wrappers_active (cfg : Cfg σ) (fuel : Nat) (u : List (FEv σ)) (w : World σ)
+    (hwb : WellBracketed u) (hfresh : ∀ j ∈ flatEnters u, (w.journals j).active = false)
+    (h0 : TableActive w) (u1 u2 : List (FEv σ)) (hu : u = u1 ++ u2) :
+    TableActive (runFlatG cfg fuel u1 w) ∧ runFlatG cfg fuel u1 w = runFlat cfg fuel u1 w := by
+  have h := flat_guard_inv cfg fuel u [] w (fun i => (w.journals i).active) hwb List.nodup_nil
+    (fun k i hi => Or.inr (h0 k i hi)) (fun _ h => by cases h) (fun _ _ => rfl) hfresh u1 u2 hu
+  exact ⟨by rw [h.1]; exact h.2, h.1⟩
+
+/-- the whole word: on properly nested histories the checked code IS the unchecked one -/
+theorem C20_flat_guarded (cfg : Cfg σ) (fuel : Nat) (u : List (FEv σ)) (w : World σ)
+    (hwb : WellBracketed u) (hfresh : ∀ j ∈ flatEnters u, (w.journals j).active = false)
+    (h0 : TableActive w) : runFlatG cfg fuel u w = runFlat cfg fuel u w :=
+  (C20_table_wrappers_active cfg fuel u w hwb hfresh h0 u [] (by simp)).2
+
+/-- the block form (`with` statements are properly nested by construction; a refused re-entry changes nothing):
+    from a world whose installed wrappers belong to active journals, any block run by the checked code does
+    exactly what the unchecked code does, and the invariant holds again afterwards -/
+theorem C20_block_guarded (cfg : Cfg σ) (fuel : Nat) (b : Block σ) (w : World σ) (h0 : TableActive w) :
+    runBlockG cfg fuel b w = runBlock cfg fuel b w ∧ TableActive (runBlockG cfg fuel b w).1 := by
+  have h := runBlockG_eq cfg fuel b w h0
+  exact ⟨h, by rw [h]; exact tableActive_block cfg fuel b w h0⟩
+
+/-- one lookup on the class: the call and all its nested calls -/
+theorem C20_dispatch_guarded (cfg : Cfg σ) (f slot : Nat) (s : Obj) (a : Val) (w : World σ) (h0 : TableActive w) :
+    dispatchG cfg f slot s a w = dispatch cfg f slot s a w := dispatchG_eq cfg f slot s a w h0
+
+/-- non-vacuity of `TableActive`: the start of the program, inside two journals, and (negative) the state that
+    exits out of order leave behind -/
+example : TableActive (initialWorld ()) ∧ TableActive (enterRaw 1 (enterRaw 0 (initialWorld ()))) ∧
+    ¬ TableActive (runFlatG (σ := Unit) { impl := fun _ _ _ => .done (.ret .none), owner := id, details := fun _ _ _ s => some s }
+      1 [.enter 0, .enter 1, .exit 0 false, .exit 1 false] (initialWorld ())) := by
+  refine ⟨tableActive_pristine _ rfl, tableActive_enterRaw 1 _ (tableActive_enterRaw 0 _ (tableActive_pristine _ rfl)), ?_⟩
+  intro h
+  have := h 0 0 (by simp [runFlatG, enter, enterRaw, exit, initialWorld, pristine, upd, Impl.layers])
+  simp [runFlatG, enter, enterRaw, exit, initialWorld, pristine, upd] at this
+
+/-! ### the run theorems, about the checked code -/
+
+/-- **C20_transparent_guarded**: `C20_transparent` for the code as it is now (both runs - with the journals and
+    with every `with journal:` removed - executed by the checked wrappers).  Additional hypothesis: the wrappers
+    installed at the start belong to active journals (`TableActive`; true at program start and inside any stack of
+    open journals). -/
+theorem C20_transparent_guarded (cfg : Cfg σ) (hproc : ProcNone cfg) (hdet : DetailsOk cfg)
+    (hpure : DetailsPure cfg) (fuel : Nat)
+    (b : Block σ) (w : World σ) (hchain : Chain w.table) (hcap : CapturedOk w) (h0 : TableActive w)
+    (hn : NoReentry b) (hfresh : ∀ j ∈ journalsOf b, (w.journals j).active = false) :
+    let r := runBlockG cfg fuel b w
+    let r0 := runBlockG cfg fuel (strip b) { w with table := pristine }
+    r.1.ir = r0.1.ir ∧ r.1.log = r0.1.log ∧ r.2 = r0.2 ∧
+      r.1.trace.filter isCall = r0.1.trace.filter isCall := by
+  intro r r0
+  have e1 : r = runBlock cfg fuel b w := runBlockG_eq cfg fuel b w h0
+  have e0 : r0 = runBlock cfg fuel (strip b) { w with table := pristine } :=
+    runBlockG_eq cfg fuel (strip b) _ (tableActive_pristine _ rfl)
+  rw [e1, e0]
+  exact C20_transparent cfg hproc hdet hpure fuel b w hchain hcap hn hfresh
+
+theorem C20_transparent_from_start_guarded (cfg : Cfg σ) (hproc : ProcNone cfg) (hdet : DetailsOk cfg)
+    (hpure : DetailsPure cfg) (fuel : Nat) (b : Block σ) (s : σ) (hn : NoReentry b) :
+    let r := runBlockG cfg fuel b (initialWorld s)
+    let r0 := runBlockG cfg fuel (strip b) (initialWorld s)
+    r.1.ir = r0.1.ir ∧ r.1.log = r0.1.log ∧ r.2 = r0.2 ∧
+      r.1.trace.filter isCall = r0.1.trace.filter isCall := by
+  intro r r0
+  have e1 : r = runBlock cfg fuel b (initialWorld s) := runBlockG_eq cfg fuel b _ (tableActive_pristine _ rfl)
+  have e0 : r0 = runBlock cfg fuel (strip b) (initialWorld s) :=
+    runBlockG_eq cfg fuel (strip b) _ (tableActive_pristine _ rfl)
+  rw [e1, e0]
+  exact C20_transparent_from_start cfg hproc hdet hpure fuel b s hn
+
+/-- **C20_entries_guarded**: `C20_entries` for the code as it is now -/
+theorem C20_entries_guarded (cfg : Cfg σ) (hdet : DetailsOk cfg) (fuel : Nat) (j : Nat) (b : Block σ)
+    (w : World σ) (hchain : Chain w.table) (h0 : TableActive w) (hj : ∀ k, (w.table k).cnt j = 0)
+    (hact : (w.journals j).active = false) :
+    ∃ evs, (runBlockG cfg fuel b w).1.trace = w.trace ++ evs ∧
+      ((runBlockG cfg fuel b w).1.journals j).entries =
+        (w.journals j).entries ++ expectedFor cfg.owner j false evs := by
+  rw [runBlockG_eq cfg fuel b w h0]
+  exact C20_entries cfg hdet fuel j b w hchain hj hact
+
+theorem C20_entries_active_guarded (cfg : Cfg σ) (hdet : DetailsOk cfg) (fuel : Nat) (j : Nat) (b : Block σ)
+    (w : World σ) (hchain : Chain w.table) (h0 : TableActive w) (hj : ∀ k, (w.table k).cnt j = 1)
+    (hact : (w.journals j).active = true) :
+    ∃ evs, (runBlockG cfg fuel b w).1.trace = w.trace ++ evs ∧
+      ((runBlockG cfg fuel b w).1.journals j).entries =
+        (w.journals j).entries ++ expectedFor cfg.owner j true evs := by
+  rw [runBlockG_eq cfg fuel b w h0]
+  exact C20_entries_active cfg hdet fuel j b w hchain hj hact
+
+/-- **C20_restore_guarded**: the checked code restores the class table, the current journal and every active flag
+    after any block, from ANY world (no hypothesis, as `C20_restore`; proved directly for `runBlockG`) -/
+theorem C20_restore_guarded (cfg : Cfg σ) (fuel : Nat) (b : Block σ) (w : World σ) :
+    (runBlockG cfg fuel b w).1.table = w.table ∧ (runBlockG cfg fuel b w).1.current = w.current ∧
+      ∀ i, ((runBlockG cfg fuel b w).1.journals i).active = (w.journals i).active :=
+  ⟨(blockG_restore cfg fuel b w).1, (blockG_restore cfg fuel b w).2, blockG_active_restore cfg fuel b w⟩
+
+/-- **C20_restore_flat_guarded**: `C20_restore_flat` for the checked code, from ANY class table -/
+theorem C20_restore_flat_guarded (cfg : Cfg σ) (fuel : Nat) (u : List (FEv σ)) (w : World σ)
+    (hwb : WellBracketed u) (hfresh : ∀ j ∈ flatEnters u, (w.journals j).active = false) :
+    (runFlatG cfg fuel u w).table = w.table ∧ (runFlatG cfg fuel u w).current = w.current ∧
+      ∀ i, ((runFlatG cfg fuel u w).journals i).active = (w.journals i).active :=
+  flatG_inv cfg fuel u [] w w.table w.current (fun i => (w.journals i).active) hwb List.nodup_nil
+    ⟨rfl, rfl⟩ (fun _ _ => rfl) (fun _ h => by cases h) hfresh
+
+/-- no strong reference, for the checked code -/
+theorem C20_no_strong_ref_run_guarded (cfg : Cfg σ) (fuel : Nat) (b : Block σ) (w : World σ) (h0 : TableActive w)
+    (h : ∀ i, heldBy (w.journals i) = []) :
+    ∀ i, heldBy ((runBlockG cfg fuel b w).1.journals i) = [] := by
+  rw [runBlockG_eq cfg fuel b w h0]
+  exact C20_no_strong_ref_run cfg fuel b w h
+
+/-- **C20_transparent_kernel_guarded**: `C20_transparent_kernel_spelled` (every spelled history of the C01 kernel
+    alphabet inside any nest of journals) for the checked code -/
+theorem C20_transparent_kernel_guarded (f : Nat) (kb : KBlkX) (hn : NoReentry kb.toBlock) :
+    let r := runBlockG kCfg (f + 3) kb.toBlock (initialWorld { w := Kernel.World.empty })
+    r.1.ir.w = Kernel.runAny kb.allOps ∧ r.1.log = histLogX Kernel.World.empty kb.allCalls ∧
+      r.2 = none ∧ r.1.trace.filter isCall = histEvsX Kernel.World.empty kb.allCalls ∧
+      (∀ j, (r.1.journals j).entries = expectedFor kOwner j false r.1.trace) ∧
+      r.1.table = pristine ∧ r.1.current = none := by
+  intro r
+  have e1 : r = runBlock kCfg (f + 3) kb.toBlock (initialWorld { w := Kernel.World.empty }) :=
+    runBlockG_eq kCfg (f + 3) kb.toBlock _ (tableActive_pristine _ rfl)
+  rw [e1]
+  exact C20_transparent_kernel_spelled f kb hn
+
+theorem C20_kernel_plain_guarded (f : Nat) (kb : KBlkX) :
+    let r := runBlockG kCfg (f + 3) (strip kb.toBlock) (initialWorld { w := Kernel.World.empty })
+    r.1.ir.w = Kernel.runAny kb.allOps ∧ r.1.log = histLogX Kernel.World.empty kb.allCalls ∧
+      r.1.trace = histEvsX Kernel.World.empty kb.allCalls ∧ r.2 = none := by
+  intro r
+  have e1 : r = runBlock kCfg (f + 3) (strip kb.toBlock) (initialWorld { w := Kernel.World.empty }) :=
+    runBlockG_eq kCfg (f + 3) _ _ (tableActive_pristine _ rfl)
+  rw [e1]
+  exact C20_kernel_plain_spelled f kb
+
+/-- a kept callable called where the installed wrappers are all active: the checked code (nested lookups checked
+    too) is `callCapturedGuarded`, which `C20_guard_noop_when_active` / `C20_captured_after_exit_guarded` describe -/
+theorem C20_captured_guarded_full (cfg : Cfg σ) (f : Nat) (c : Captured) (arg : Val) (w : World σ)
+    (h0 : TableActive w) : callCapturedG cfg f c arg w = callCapturedGuarded cfg f c arg w :=
+  callCapturedG_eq cfg f c arg w h0
+
+/-! ### the checked code in ANY history (properly nested or not) -/
+
+/-- **C20_inactive_journal_silent**: with the `_active` check a journal that is not entered receives NO entry,
+    in any flat history whatsoever that does not enter it - improperly nested, with its stale wrappers still
+    installed in the class table (exits out of order), whatever is entered, exited or executed.  (Without the
+    check this is false: `C20_captured_inside_records_after_exit`, and the stale wrappers of
+    `C20_improper_nesting_general` record for ever.) -/
+theorem C20_inactive_journal_silent (cfg : Cfg σ) (fuel j : Nat) (u : List (FEv σ)) (w : World σ)
+    (hj : (w.journals j).active = false) (hu : j ∉ flatEnters u) :
+    ((runFlatG cfg fuel u w).journals j).entries = (w.journals j).entries ∧
+      ((runFlatG cfg fuel u w).journals j).active = false := by
+  have h := runFlatG_silent cfg fuel j (w.journals j).entries u w hu ⟨hj, rfl⟩
+  exact ⟨h.2, h.1⟩
+
+/-- the unchecked wrappers did record in that situation: journal 0 is exited out of order, its wrappers stay
+    installed, and an operation executed afterwards lands in the exited journal; with the check it does not -/
+theorem C20_inactive_journal_silent_needs_guard :
+    let cfg : Cfg Unit := { impl := fun _ _ _ => .done (.ret .none), owner := id, details := fun _ _ _ s => some s }
+    let u : List (FEv Unit) := [.enter 0, .enter 1, .exit 0 false, .exit 1 false,
+      .op (.call 21 5 .none fun o => .done o)]
+    ((runFlat cfg 2 u (initialWorld ())).journals 0).entries = [mkEntry 21 5] ∧
+    ((runFlatG cfg 2 u (initialWorld ())).journals 0).entries = [] ∧
+    (runFlatG cfg 2 u (initialWorld ())).log = [.ret .none] := by
+  simp [runFlat, runFlatG, runProg, dispatch, dispatchG, runImpl, runImplGuarded, runOrig, enter, enterRaw, exit,
+    initialWorld, pristine, upd, emit, record, kindOf, slots, targetOf]
+
+/-- a stale layer only forwards: a wrapper whose journal is not active, in front of any chain - the world after
+    the call is the world after calling what is behind it, it completes iff that does, and for methods / container
+    methods the two calls are literally equal (the constructor and the setter wrapper return None) -/
+theorem C20_stale_wrapper_forwards (cfg : Cfg σ) (f j k : Nat) (inner : Impl) (s : Obj) (a : Val) (w : World σ)
+    (hj : (w.journals j).active = false) :
+    let body := runOrig cfg (dispatchG cfg f)
+    (runImplGuarded cfg body (.wrap j k inner) s a w).1 = (runImplGuarded cfg body inner s a w).1 ∧
+    isRet (runImplGuarded cfg body (.wrap j k inner) s a w).2 = isRet (runImplGuarded cfg body inner s a w).2 ∧
+    (kindOf k = .method ∨ kindOf k = .container →
+      runImplGuarded cfg body (.wrap j k inner) s a w = runImplGuarded cfg body inner s a w) := by
+  intro body
+  have hfr : SameCtl w (runImplGuarded cfg body inner s a w).1 :=
+    runImplGuarded_stable (sameCtl_stable w) cfg
+      (runOrig_stable (sameCtl_stable w) cfg (fun s o a w' h => dispatchG_stable (sameCtl_stable w) cfg f s o a w' h))
+      inner s a w (SameCtl.refl w)
+  have hj' : ((runImplGuarded cfg body inner s a w).1.journals j).active = false := by
+    rw [hfr.active j]; exact hj
+  cases hk : kindOf k
+  · refine ⟨?_, ?_, fun h => by rcases h with h | h <;> cases h⟩
+    · simp only [runImplGuarded, hk]
+      split
+      · simp [hj']
+      · rfl
+    · simp only [runImplGuarded, hk]
+      split
+      · next v hv => simp [hj', hv, isRet]
+      · next e he => simp [he]
+  · refine ⟨?_, ?_, fun h => by rcases h with h | h <;> cases h⟩
+    · simp only [runImplGuarded, hk, hj, Bool.not_false, if_true]
+    · simp only [runImplGuarded, hk, hj, Bool.not_false, if_true]
+      cases (runImplGuarded cfg body inner s a w).2 <;> rfl
+  all_goals
+    have e : runImplGuarded cfg body (.wrap j k inner) s a w = runImplGuarded cfg body inner s a w := by
+      simp only [runImplGuarded, hk, hj, Bool.not_false, if_true]
+      cases h2 : (runImplGuarded cfg body inner s a w).2 with
+      | ret v =>
+        have : runImplGuarded cfg body inner s a w = ((runImplGuarded cfg body inner s a w).1, .ret v) := by
+          rw [← h2]
+        rw [this]; simp
+      | raise e =>
+        have : runImplGuarded cfg body inner s a w = ((runImplGuarded cfg body inner s a w).1, .raise e) := by
+          rw [← h2]
+        rw [this]
+    exact ⟨by rw [e], by rw [e], fun _ => e⟩
+
+/-- **the `_active` check, for every slot** (computed by running `runImplGuarded` on the probe configuration with the
+    wrapper's journal NOT active): the original runs exactly once, the `details` expression is not evaluated, nothing
+    is recorded; method and container wrappers hand the original's result back, constructor and setter wrappers
+    return None; an exception of the original propagates.  Compared slot by slot with the real wrapper code objects
+    run around a stub journal whose `_active` is False. -/
+theorem C20_wrapper_guard (k : Nat) :
+    guardForwards k = true ∧ guardReturnsResult k = (kindOf k == .method || kindOf k == .container) ∧
+      guardPropagates k = true := by
+  cases h : kindOf k <;>
+    simp [guardForwards, guardReturnsResult, guardPropagates, probeRunG, probeWorldInactive, probeCfg, runImplGuarded,
+      enterRaw, initialWorld, pristine, upd, h]
+
+/-- **what `__exit__` does in any history, checked code** (`C20_exit_restores_own_snapshot` for `runFlatG`) -/
+theorem C20_exit_restores_own_snapshot_guarded (cfg : Cfg σ) (fuel j : Nat) (u : List (FEv σ)) (x : Bool)
+    (w : World σ) (hj : (w.journals j).active = false) (hu : j ∉ flatExits u) :
+    let w' := runFlatG cfg fuel (.enter j :: u ++ [.exit j x]) w
+    w'.table = w.table ∧ w'.current = w.current ∧ (w'.journals j).active = false := by
+  have hen : enter j w = some (enterRaw j w) := by simp [enter, hj]
+  have hact : ((enterRaw j w).journals j).active = true := by simp [enterRaw, upd]
+  have hf := flatG_frame_active cfg fuel j u (enterRaw j w) hact hu
+  have hcap : ((runFlatG cfg fuel u (enterRaw j w)).journals j).captured = some w.table := by
+    rw [hf.1]; simp [enterRaw, upd]
+  have hprev : ((runFlatG cfg fuel u (enterRaw j w)).journals j).previous = w.current := by
+    rw [hf.2.1]; simp [enterRaw, upd]
+  simp only [runFlatG, hen, Option.getD_some, runFlatG_append]
+  simp [exit, hcap, hprev, upd]
+
+/-- **C20_improper_nesting_general_guarded**: what exits out of order leave behind, for the checked code: the same
+    control state as `C20_improper_nesting_general` (every slot carries the wrapper of the exited journal `i`,
+    `get_current_journal()` is `i`, both inactive) - the classes stay wrapped, but by `C20_inactive_journal_silent`
+    and `C20_stale_wrapper_forwards` those wrappers only forward and `i` receives nothing any more. -/
+theorem C20_improper_nesting_general_guarded (cfg : Cfg σ) (fuel i j : Nat) (hij : i ≠ j)
+    (u v : List (FEv σ)) (x y : Bool) (w : World σ)
+    (hu : WellBracketed u) (hui : i ∉ flatEnters u) (huj : j ∉ flatEnters u)
+    (hfresh : ∀ a ∈ flatEnters u, (w.journals a).active = false)
+    (hi : (w.journals i).active = false) (hj : (w.journals j).active = false)
+    (hvj : j ∉ flatExits v) (hvi : i ∉ flatExits v) :
+    let w' := runFlatG cfg fuel (.enter i :: u ++ .enter j :: v ++ [.exit i x, .exit j y]) w
+    (∀ k, w'.table k = .wrap i k (w.table k)) ∧ w'.current = some i ∧
+      (w'.journals i).active = false ∧ (w'.journals j).active = false := by
+  have hen : enter i w = some (enterRaw i w) := by simp [enter, hi]
+  -- after `enter i` and the properly nested `u`
+  have hfresh1 : ∀ a ∈ flatEnters u, ((enterRaw i w).journals a).active = false := by
+    intro a ha
+    have hai : a ≠ i := fun e => hui (e ▸ ha)
+    rw [enterRaw_other i a w hai]; exact hfresh a ha
+  obtain ⟨ht1, hc1, ha1⟩ := C20_restore_flat_guarded cfg fuel u (enterRaw i w) hu hfresh1
+  let w1 := runFlatG cfg fuel u (enterRaw i w)
+  have hj1 : (w1.journals j).active = false := by
+    show ((runFlatG cfg fuel u (enterRaw i w)).journals j).active = false
+    rw [ha1 j, enterRaw_other i j w (fun e => hij e.symm)]; exact hj
+  have hi1 : (w1.journals i).active = true := by
+    show ((runFlatG cfg fuel u (enterRaw i w)).journals i).active = true
+    rw [ha1 i]; simp [enterRaw, upd]
+  -- `enter j :: (v ++ [exit i]) ++ [exit j]` restores the snapshot of `w1`
+  have hx : j ∉ flatExits (v ++ [FEv.exit (σ := σ) i x]) := by
+    have : ∀ (a b : List (FEv σ)), flatExits (a ++ b) = flatExits a ++ flatExits b := by
+      intro a b
+      induction a with
+      | nil => rfl
+      | cons e r ih => cases e <;> simp [flatExits, ih]
+    rw [this]
+    simp only [flatExits, List.mem_append, List.mem_singleton, not_or]
+    exact ⟨hvj, fun e => hij e.symm⟩
+  have hsnap := C20_exit_restores_own_snapshot_guarded cfg fuel j (v ++ [.exit i x]) y w1 hj1 hx
+  -- journal `i` after the tail: exited inside it, not entered again ... (its flag after `exit i`)
+  have hw : runFlatG cfg fuel (.enter i :: u ++ .enter j :: v ++ [.exit i x, .exit j y]) w =
+      runFlatG cfg fuel (.enter j :: (v ++ [.exit i x]) ++ [.exit j y]) w1 := by
+    have e1 : (FEv.enter i :: u ++ FEv.enter j :: v ++ [FEv.exit i x, FEv.exit j y] : List (FEv σ)) =
+        FEv.enter i :: (u ++ (FEv.enter j :: (v ++ [FEv.exit i x]) ++ [FEv.exit j y])) := by simp
+    rw [e1]
+    simp only [runFlatG, hen, Option.getD_some]
+    rw [runFlatG_append]
+  simp only [] at hsnap ⊢
+  rw [hw]
+  refine ⟨fun k => ?_, ?_, ?_, hsnap.2.2⟩
+  · rw [hsnap.1]
+    show (runFlatG cfg fuel u (enterRaw i w)).table k = _
+    rw [ht1]; rfl
+  · rw [hsnap.2.1]
+    show (runFlatG cfg fuel u (enterRaw i w)).current = _
+    rw [hc1]; rfl
+  · -- `i` is active in `w1`, stays so through `enter j :: v` (not exited), is exited, and `exit j` does not touch it
+    have hen_j : enter j w1 = some (enterRaw j w1) := by simp [enter, hj1]
+    have hi2 : ((enterRaw j w1).journals i).active = true := by
+      rw [enterRaw_other j i w1 hij]; exact hi1
+    have hf := flatG_frame_active cfg fuel i v (enterRaw j w1) hi2 hvi
+    have hcap : ∃ t, ((runFlatG cfg fuel v (enterRaw j w1)).journals i).captured = some t := by
+      rw [hf.1, enterRaw_other j i w1 hij]
+      have hfi := flatG_frame_active cfg fuel i u (enterRaw i w) (by simp [enterRaw, upd])
+        (by
+          -- a properly nested word that never enters `i` never exits it
+          intro hmem
+          have key : ∀ (r : List (FEv σ)) (st : List Nat), wbAux st r = true → i ∈ flatExits r →
+              i ∈ st ∨ i ∈ flatEnters r := by
+            intro r
+            induction r with
+            | nil => intro st _ h; simp [flatExits] at h
+            | cons e r ih =>
+              intro st hwb h
+              cases e with
+              | enter a =>
+                simp only [wbAux, Bool.and_eq_true] at hwb
+                rcases ih (a :: st) hwb.2 (by simpa [flatExits] using h) with h1 | h1
+                · rcases List.mem_cons.mp h1 with h2 | h2
+                  · right; simp [flatEnters, h2]
+                  · left; exact h2
+                · right; simp [flatEnters, h1]
+              | exit a z =>
+                cases st with
+                | nil => simp [wbAux] at hwb
+                | cons t st' =>
+                  simp only [wbAux, Bool.and_eq_true, beq_iff_eq] at hwb
+                  simp only [flatExits, List.mem_cons] at h
+                  rcases h with h | h
+                  · left; rw [h, ← hwb.1]; exact List.mem_cons_self ..
+                  · rcases ih st' hwb.2 h with h1 | h1
+                    · left; exact List.mem_cons_of_mem _ h1
+                    · right; simpa [flatEnters] using h1
+              | op p =>
+                simp only [wbAux] at hwb
+                rcases ih st hwb (by simpa [flatExits] using h) with h1 | h1
+                · left; exact h1
+                · right; simpa [flatEnters] using h1
+          rcases key u [] hu hmem with h | h
+          · cases h
+          · exact hui h)
+      exact ⟨w.table, by
+        show ((runFlatG cfg fuel u (enterRaw i w)).journals i).captured = _
+        rw [hfi.1]; simp [enterRaw, upd]⟩
+    obtain ⟨t, hcap⟩ := hcap
+    simp only [List.cons_append, List.append_assoc, runFlatG, hen_j, Option.getD_some, runFlatG_append,
+      List.nil_append]
+    rw [exit_other j i _ hij]
+    simp [exit, hcap, upd]
+
 
 end IrVerif.Journal
